@@ -780,6 +780,9 @@ def run(tier, seed):
     # fourth round: one turn of the loop of parse_env_file (split at the first '=', reserved-key rule) regenerated from
     # the source and proved equal to Model/EnvFileLine.v's line_step, the step of Model/Scripts.v's parse_lines
     gen_tie.gate(chk, ['env_file_line'], gate, family="glue")
+    # fifth round: SetupScriptExecuteData::apply hands EVERY (key, value) of every script whose rule matches to
+    # Command::env, unconditionally (no key is skipped because the command already carries a value for it)
+    gen_tie.gate(chk, ['apply_env_unconditional'], gate, family="glue")
     checker = "make -C coq Properties/C18.vo && coqc gen/assump_C18.v (Print Assumptions)"
     binary, err = vlib.build_harness()
     if binary is None:
